@@ -1,12 +1,8 @@
 import EvyV.Props.C02Sound
 /-!
-C02: type soundness of the evaluator model, statements.
-
-`stmt_sound`: a well-typed statement list (Spec/WellTyped.lean `BTyped`: declarations, assignments to
-variables, elements and fields, if / else-if / else, while, return, break, print), executed for any
-number of steps in a well-typed state, ends in a well-typed state — every scope pushed is popped,
-every variable and heap object still has its declared type, a returned value has the function's
-result type — or in a documented outcome. Never an internal error, never a Go panic.
+C02: type soundness of the evaluator model — the state invariant (scopes mirror the static scopes,
+globals and heap objects have their declared types), binding, rebinding and element stores, and the
+result predicates of statements (the lemmas the induction of Props/C02Full.lean uses).
 -/
 namespace EvyV.TS
 open EvyV
@@ -393,50 +389,6 @@ theorem zeroVal_typed {S : Store} {st : St F} (hk : HeapOk S st.heap) (s : Ty) (
 
 /-! ### the induction -/
 
-/-- evaluate an expression of a statement: the state stays well-typed under the same scopes -/
-theorem eval_in (hx : ExtOk ext) (n : Nat) {S : Store} {Gs : List SEnv} {st : St F} (hok : StOk S Gs Gg st)
-    (e : Expr F) (t : Ty) (hty : Typed (lookupG Gs Gg) e t) :
-    match evalE ops ext prog n e st with
-    | .ok v st' => ∃ S', Grows S S' ∧ StOk S' Gs Gg st' ∧ VT S' v t ∧ st'.locals = st.locals ∧ st'.global = st.global
-    | .err o _ => Doc o := by
-  have h := (sound ops ext prog hx n).1 e st (lookupG Gs Gg) S t hty hok.heap (hok.envOk)
-  cases hq : evalE ops ext prog n e st with
-  | err o s => rw [hq] at h; exact h
-  | ok v s =>
-    rw [hq] at h
-    obtain ⟨S', g, hk, hv, l, gl⟩ := h
-    exact ⟨S', g, hok.mono g hk l gl, hv, l, gl⟩
-
-/-- an optional operand of a step range -/
-theorem numOr_in (hx : ExtOk ext) (k : Nat) {S : Store} {Gs : List SEnv} {st : St F} (hok : StOk S Gs Gg st)
-    (oe : Option (Expr F)) (d : F) (hty : ∀ x, oe = some x → Typed (lookupG Gs Gg) x .num) :
-    match evalNumOr ops ext prog k oe d st with
-    | .ok _ st' => ∃ S', Grows S S' ∧ StOk S' Gs Gg st' ∧ st'.locals = st.locals ∧ st'.global = st.global
-    | .err o _ => Doc o := by
-  cases k with
-  | zero => simp [evalNumOr]; trivial
-  | succ n =>
-    unfold evalNumOr
-    have key : ∀ e, Typed (lookupG Gs Gg) e .num →
-        (match (match evalE ops ext prog n e st with
-          | .err o st' => (.err o st' : Res F F)
-          | .ok (.num v) st' => .ok v st'
-          | .ok _ st' => .err (.internal "ErrType: expected number") st') with
-        | .ok _ st' => ∃ S', Grows S S' ∧ StOk S' Gs Gg st' ∧ st'.locals = st.locals ∧ st'.global = st.global
-        | .err o _ => Doc o) := by
-      intro e hte
-      have h1 := eval_in ops ext prog Gg hx n hok e .num hte
-      cases hq : evalE ops ext prog n e st with
-      | err o s1 => rw [hq] at h1; exact h1
-      | ok v s1 =>
-        rw [hq] at h1
-        obtain ⟨S1, g1, hok1, hv1, l1, gl1⟩ := h1
-        obtain ⟨x, rfl⟩ := hv1.num_inv
-        exact ⟨S1, g1, hok1, l1, gl1⟩
-    cases oe with
-    | none => exact key _ (.num d)
-    | some e => exact key e (hty e rfl)
-
 /-- the scope of the loop variable after the range has been evaluated -/
 theorem loop_scope_ok {S : Store} {Gs : List SEnv} {st : St F} (hok : StOk S ([] :: Gs) Gg st) (lv : Option Str) (t : Ty)
     (hlv : ∀ n, lv = some n → n ≠ underscore) (z : Val F) (hz : VT S z t) :
@@ -471,26 +423,6 @@ theorem for_finish {S S1 : Store} {Gs : List SEnv} (lvs : SEnv) (g : Grows S S1)
     obtain ⟨S2, g2, hok, hc⟩ := h
     exact ⟨S2, Gs, g.trans g2, hok.pop Gg rfl (by simp), rfl, rfl, fun _ => rfl, hc⟩
 
-def SoundS (fuel : Nat) : Prop :=
-  (∀ (s : Stmt F) st Gs Gs' S, STyped Gg ρ Gs s Gs' → StOk S Gs Gg st →
-      GoodS Gg ρ S Gs Gs' (execS ops ext prog fuel s st)) ∧
-  (∀ (b : List (Stmt F)) st Gs S, BTyped Gg ρ Gs b → StOk S Gs Gg st →
-      GoodB Gg ρ S Gs (execStmts ops ext prog fuel b st)) ∧
-  (∀ (b : List (Stmt F)) st Gs S, BTyped Gg ρ Gs b → StOk S Gs Gg st →
-      GoodB Gg ρ S Gs (execBlockNode ops ext prog fuel b st)) ∧
-  (∀ (c : Expr F) (body : List (Stmt F)) st Gs S, Typed (lookupG Gs Gg) c .bool → BTyped Gg ρ ([] :: Gs) body → StOk S Gs Gg st →
-      GoodC Gg ρ S Gs (execCond ops ext prog fuel c body st)) ∧
-  (∀ (conds : List (Expr F × List (Stmt F))) (els : Option (List (Stmt F))) st Gs S,
-      (∀ c ∈ conds, Typed (lookupG Gs Gg) c.1 .bool) → (∀ c ∈ conds, BTyped Gg ρ ([] :: Gs) c.2) →
-      (∀ b, els = some b → BTyped Gg ρ ([] :: Gs) b) → StOk S Gs Gg st →
-      GoodK Gg ρ S Gs (execIfChain ops ext prog fuel conds els st)) ∧
-  (∀ (c : Expr F) (body : List (Stmt F)) st Gs S, Typed (lookupG Gs Gg) c .bool → BTyped Gg ρ ([] :: Gs) body → StOk S Gs Gg st →
-      GoodK Gg ρ S Gs (execWhile ops ext prog fuel c body st)) ∧
-  (∀ (lv : Option Str) (t : Ty) (r : Ranger F) (body : List (Stmt F)) st Gs S, (∀ n, lv = some n → n ≠ underscore) →
-      RangerOk S r t → BTyped Gg ρ ([] :: loopScope lv t :: Gs) body → StOk S (loopScope lv t :: Gs) Gg st →
-      GoodK Gg ρ S (loopScope lv t :: Gs)
-        (execForLoop ops ext prog fuel (match lv with | some n => n | none => underscore) r body st))
-
 theorem GoodK.grow {S S1 : Store} {Gs : List SEnv} {r : Res F (Completion F)} (h : GoodK Gg ρ S1 Gs r) (g : Grows S S1) :
     GoodK Gg ρ S Gs r := by
   cases r with
@@ -505,457 +437,5 @@ theorem GoodK.toS {S : Store} {Gs : List SEnv} {r : Res F (Completion F)} (h : G
 theorem lookupG_ne_underscore {Gs : List SEnv} {n : Str} {t : Ty} (h : lookupG Gs Gg n = some t) : n ≠ underscore := by
   intro e; subst e; simp [lookupG] at h
 
-theorem soundS (hx : ExtOk ext) (fuel : Nat) : SoundS ops ext prog Gg ρ fuel := by
-  induction fuel with
-  | zero =>
-    refine ⟨?_, ?_, ?_, ?_, ?_, ?_, ?_⟩ <;> intros <;>
-      simp [execS, execStmts, execBlockNode, execCond, execIfChain, execWhile, execForLoop, GoodS, GoodB, GoodK, GoodC, Doc]
-  | succ n ih =>
-    obtain ⟨ihS, ihB, ihN, ihC, ihI, ihW, ihF⟩ := ih
-    refine ⟨?_, ?_, ?_, ?_, ?_, ?_, ?_⟩
-    · -- one statement
-      intro s st0 Gs Gs' S hty hok0
-      unfold execS
-      cases ht : tick st0 with
-      | none => exact trivial
-      | some st =>
-        obtain ⟨th, tl, tg⟩ := tick_same ht
-        have hok : StOk S Gs Gg st := hok0.same Gg th tl tg
-        simp only
-        cases hty with
-        | noop => exact ⟨S, Gs, Grows.refl S, hok, rfl, rfl, fun _ => rfl, trivial⟩
-        | brk => exact ⟨S, Gs, Grows.refl S, hok, rfl, rfl, (fun h => by cases h), trivial⟩
-        | declLocal h rest nm e t hne hte =>
-          simp only
-          have h1 := eval_in ops ext prog Gg hx n hok e t hte
-          cases hq : evalE ops ext prog n e st with
-          | err o s1 => rw [hq] at h1; exact h1
-          | ok v s1 =>
-            rw [hq] at h1
-            obtain ⟨S1, g1, hok1, hv1, l1, gl1⟩ := h1
-            have hl := hok1.locals
-            cases hl' : s1.locals with
-            | nil => rw [hl'] at hl; cases hl
-            | cons sc scs =>
-              rw [hl'] at hl
-              cases hl with
-              | cons hsc hrest =>
-                refine ⟨S1, senvSet h nm t :: rest, g1, ⟨?_, ?_, ?_⟩, rfl, rfl, fun _ => rfl, trivial⟩
-                · simp only [setVar, hne, if_false, hl']
-                  exact .cons (hsc.set nm v t hv1) hrest
-                · simp only [setVar, hne, if_false, hl']; exact hok1.global
-                · simp only [setVar, hne, if_false, hl']; exact hok1.heap
-        | declGlobal nm e t hne hg hte =>
-          simp only
-          have h1 := eval_in ops ext prog Gg hx n hok e t hte
-          cases hq : evalE ops ext prog n e st with
-          | err o s1 => rw [hq] at h1; exact h1
-          | ok v s1 =>
-            rw [hq] at h1
-            obtain ⟨S1, g1, hok1, hv1, l1, gl1⟩ := h1
-            have hl := hok1.locals
-            cases hl' : s1.locals with
-            | cons sc scs => rw [hl'] at hl; cases hl
-            | nil =>
-              refine ⟨S1, [], g1, ⟨?_, ?_, ?_⟩, rfl, rfl, fun _ => rfl, trivial⟩
-              · simp only [setVar, hne, if_false, hl']; exact .nil
-              · simp only [setVar, hne, if_false, hl']
-                exact hok1.global.set nm v (fun t' ht' => by rw [hg] at ht'; cases ht'; exact hv1)
-              · simp only [setVar, hne, if_false, hl']; exact hok1.heap
-        | assignVar _ nm e t hlk hte =>
-          simp only
-          have hne := lookupG_ne_underscore Gg hlk
-          have h1 := eval_in ops ext prog Gg hx n hok e t hte
-          cases hq : evalE ops ext prog n e st with
-          | err o s1 => rw [hq] at h1; exact h1
-          | ok v s1 =>
-            rw [hq] at h1
-            obtain ⟨S1, g1, hok1, hv1, l1, gl1⟩ := h1
-            simp only [updateVar, hne, if_false]
-            simp only [lookupG, hne, if_false] at hlk
-            have hu := hok1.locals.update nm v t hv1
-            cases hf : List.findSome? (fun s => senvGet s nm) Gs with
-            | some t' =>
-              rw [hf] at hlk; simp only at hlk; cases hlk
-              obtain ⟨l', hl', hokl⟩ := hu.1 hf
-              rw [hl']
-              exact ⟨S1, Gs, g1, ⟨hokl, hok1.global, hok1.heap⟩, rfl, rfl, fun _ => rfl, trivial⟩
-            | none =>
-              rw [hf] at hlk; simp only at hlk
-              rw [hu.2 hf]
-              by_cases hs : (scopeGet s1.global nm).isSome = true
-              · simp only [hs, if_true]
-                exact ⟨S1, Gs, g1, ⟨hok1.locals, hok1.global.set nm v (fun t' ht' => by rw [hlk] at ht'; cases ht'; exact hv1), hok1.heap⟩,
-                  rfl, rfl, fun _ => rfl, trivial⟩
-              · simp only [hs]
-                exact trivial
-        | assignIdxArr _ l i e s hl hi hte =>
-          simp only
-          have h1 := eval_in ops ext prog Gg hx n hok e s hte
-          cases hq : evalE ops ext prog n e st with
-          | err o s1 => rw [hq] at h1; exact h1
-          | ok v s1 =>
-            rw [hq] at h1
-            obtain ⟨S1, g1, hok1, hv1, _, _⟩ := h1
-            simp only
-            have h2 := eval_in ops ext prog Gg hx n hok1 l _ hl
-            cases hq2 : evalE ops ext prog n l s1 with
-            | err o s2 => rw [hq2] at h2; exact h2
-            | ok left s2 =>
-              rw [hq2] at h2
-              obtain ⟨S2, g2, hok2, hv2, _, _⟩ := h2
-              simp only
-              have h3 := eval_in ops ext prog Gg hx n hok2 i _ hi
-              cases hq3 : evalE ops ext prog n i s2 with
-              | err o s3 => rw [hq3] at h3; exact h3
-              | ok idx s3 =>
-                rw [hq3] at h3
-                obtain ⟨S3, g3, hok3, hv3, _, _⟩ := h3
-                obtain ⟨a, rfl, ha⟩ := (hv2.mono g3).arr_inv
-                obtain ⟨iv, rfl⟩ := hv3.num_inv
-                obtain ⟨es, hes, hest⟩ := hok3.heap.arr a s ha
-                simp only [heapGet, hes]
-                cases hsi : setIndexList ops es iv v with
-                | error er => cases er <;> exact trivial
-                | ok o =>
-                  cases o with
-                  | none => exact absurd hsi (setIndex_never_gopanic ops es iv v)
-                  | some es' =>
-                    refine ⟨S3, Gs, (g1.trans g2).trans g3, ⟨hok3.locals, hok3.global, ?_⟩, rfl, rfl, fun _ => rfl, trivial⟩
-                    exact hok3.heap.set_arr a s ha es' (setIndex_typed ops es es' iv v hest ((hv1.mono g2).mono g3) hsi)
-        | assignIdxMap _ l i e s hl hi hte =>
-          simp only
-          have h1 := eval_in ops ext prog Gg hx n hok e s hte
-          cases hq : evalE ops ext prog n e st with
-          | err o s1 => rw [hq] at h1; exact h1
-          | ok v s1 =>
-            rw [hq] at h1
-            obtain ⟨S1, g1, hok1, hv1, _, _⟩ := h1
-            simp only
-            have h2 := eval_in ops ext prog Gg hx n hok1 l _ hl
-            cases hq2 : evalE ops ext prog n l s1 with
-            | err o s2 => rw [hq2] at h2; exact h2
-            | ok left s2 =>
-              rw [hq2] at h2
-              obtain ⟨S2, g2, hok2, hv2, _, _⟩ := h2
-              simp only
-              have h3 := eval_in ops ext prog Gg hx n hok2 i _ hi
-              cases hq3 : evalE ops ext prog n i s2 with
-              | err o s3 => rw [hq3] at h3; exact h3
-              | ok idx s3 =>
-                rw [hq3] at h3
-                obtain ⟨S3, g3, hok3, hv3, _, _⟩ := h3
-                obtain ⟨a, rfl, ha⟩ := (hv2.mono g3).map_inv
-                obtain ⟨k, rfl⟩ := hv3.str_inv
-                obtain ⟨m, hm, hmt⟩ := hok3.heap.map a s ha
-                simp only [heapGet, hm]
-                refine ⟨S3, Gs, (g1.trans g2).trans g3, ⟨hok3.locals, hok3.global, ?_⟩, rfl, rfl, fun _ => rfl, trivial⟩
-                exact hok3.heap.set_map a s ha _ (setKey_typed m k v hmt ((hv1.mono g2).mono g3))
-        | assignDot _ l key e s hl hte =>
-          simp only
-          have h1 := eval_in ops ext prog Gg hx n hok e s hte
-          cases hq : evalE ops ext prog n e st with
-          | err o s1 => rw [hq] at h1; exact h1
-          | ok v s1 =>
-            rw [hq] at h1
-            obtain ⟨S1, g1, hok1, hv1, _, _⟩ := h1
-            simp only
-            have h2 := eval_in ops ext prog Gg hx n hok1 l _ hl
-            cases hq2 : evalE ops ext prog n l s1 with
-            | err o s2 => rw [hq2] at h2; exact h2
-            | ok left s2 =>
-              rw [hq2] at h2
-              obtain ⟨S2, g2, hok2, hv2, _, _⟩ := h2
-              obtain ⟨a, rfl, ha⟩ := hv2.map_inv
-              obtain ⟨m, hm, hmt⟩ := hok2.heap.map a s ha
-              simp only [heapGet, hm]
-              refine ⟨S2, Gs, g1.trans g2, ⟨hok2.locals, hok2.global, ?_⟩, rfl, rfl, fun _ => rfl, trivial⟩
-              exact hok2.heap.set_map a s ha _ (setKey_typed m key v hmt (hv1.mono g2))
-        | retNone _ hr => exact ⟨S, Gs, Grows.refl S, hok, rfl, rfl, (fun h => by cases h), hr⟩
-        | retSome _ e t hr hte =>
-          simp only
-          have h1 := eval_in ops ext prog Gg hx n hok e t hte
-          cases hq : evalE ops ext prog n e st with
-          | err o s1 => rw [hq] at h1; exact h1
-          | ok v s1 =>
-            rw [hq] at h1
-            obtain ⟨S1, g1, hok1, hv1, _, _⟩ := h1
-            exact ⟨S1, Gs, g1, hok1, rfl, rfl, (fun h => by cases h), ⟨t, hr, hv1⟩⟩
-        | ifS _ conds els hc hb he => exact (ihI conds els st Gs S hc hb he hok).toS Gg ρ
-        | whileS _ c body hc hb => exact (ihW c body st Gs S hc hb hok).toS Gg ρ
-        | forStep _ lv lvTy start stop step body hlv hstart hstop hstep hbody =>
-          simp only
-          have hp := hok.push Gg
-          have e1 : lookupG ([] :: Gs) Gg = lookupG Gs Gg := lookupG_push Gs Gg
-          have h1 := numOr_in ops ext prog Gg hx n hp start ops.zero (by rw [e1]; exact hstart)
-          cases hq : evalNumOr ops ext prog n start ops.zero (pushScope st) with
-          | err o s1 => rw [hq] at h1; exact h1
-          | ok a s1 =>
-            rw [hq] at h1
-            obtain ⟨S1, g1, hok1, _, _⟩ := h1
-            simp only
-            have h2 := numOr_in ops ext prog Gg hx n hok1 (some stop) ops.zero (by intro x hx'; cases hx'; rw [e1]; exact hstop)
-            cases hq2 : evalNumOr ops ext prog n (some stop) ops.zero s1 with
-            | err o s2 => rw [hq2] at h2; exact h2
-            | ok b s2 =>
-              rw [hq2] at h2
-              obtain ⟨S2, g2, hok2, _, _⟩ := h2
-              simp only
-              have h3 := numOr_in ops ext prog Gg hx n hok2 step ops.one (by rw [e1]; exact hstep)
-              cases hq3 : evalNumOr ops ext prog n step ops.one s2 with
-              | err o s3 => rw [hq3] at h3; exact h3
-              | ok c s3 =>
-                rw [hq3] at h3
-                obtain ⟨S3, g3, hok3, _, _⟩ := h3
-                by_cases hc : ops.eq c ops.zero = true
-                · simp only [hc, if_true]; exact trivial
-                · simp only [hc]
-                  have hls := loop_scope_ok Gg hok3 lv .num hlv (.num ops.zero) (.num _)
-                  have hf := ihF lv .num (.step a b c) body _ Gs S3 hlv rfl hbody hls
-                  exact for_finish Gg ρ _ ((g1.trans g2).trans g3) _ hf
-        | forArr _ lv e s body hlv he hbody =>
-          simp only
-          have hp := hok.push Gg
-          have e1 : lookupG ([] :: Gs) Gg = lookupG Gs Gg := lookupG_push Gs Gg
-          have h1 := eval_in ops ext prog Gg hx n hp e (.arr s) (by rw [e1]; exact he)
-          cases hq : evalE ops ext prog n e (pushScope st) with
-          | err o s1 => rw [hq] at h1; exact h1
-          | ok v s1 =>
-            rw [hq] at h1
-            obtain ⟨S1, g1, hok1, hv1, _, _⟩ := h1
-            obtain ⟨a, rfl, ha⟩ := hv1.arr_inv
-            have hs : Reg s = true := by have := hok1.heap.reg _ (List.mem_of_getElem? ha); simpa [Reg] using this
-            simp only
-            cases lv with
-            | none =>
-              have hf := ihF none s (.arr a 0) body s1 Gs S1 hlv ha hbody hok1
-              exact for_finish Gg ρ _ g1 _ hf
-            | some nm =>
-              obtain ⟨S2, g2, hk2, hz, zl, zg⟩ := zeroVal_typed ops hok1.heap s hs
-              have hok2 : StOk S2 ([] :: Gs) Gg (zeroVal ops s1 s).2 := hok1.mono g2 hk2 zl zg
-              have hls := loop_scope_ok Gg hok2 (some nm) s hlv _ hz
-              have hf := ihF (some nm) s (.arr a 0) body _ Gs S2 hlv (g2.get ha) hbody hls
-              exact for_finish Gg ρ _ (g1.trans g2) _ hf
-        | forStr _ lv lvTy e body hlv he hbody =>
-          simp only
-          have hp := hok.push Gg
-          have e1 : lookupG ([] :: Gs) Gg = lookupG Gs Gg := lookupG_push Gs Gg
-          have h1 := eval_in ops ext prog Gg hx n hp e .str (by rw [e1]; exact he)
-          cases hq : evalE ops ext prog n e (pushScope st) with
-          | err o s1 => rw [hq] at h1; exact h1
-          | ok v s1 =>
-            rw [hq] at h1
-            obtain ⟨S1, g1, hok1, hv1, _, _⟩ := h1
-            obtain ⟨cs, rfl⟩ := hv1.str_inv
-            simp only
-            have hls := loop_scope_ok Gg hok1 lv .str hlv (.str []) (.str _)
-            have hf := ihF lv .str (.str cs 0) body _ Gs S1 hlv rfl hbody hls
-            exact for_finish Gg ρ _ g1 _ hf
-        | forMap _ lv lvTy e s body hlv he hbody =>
-          simp only
-          have hp := hok.push Gg
-          have e1 : lookupG ([] :: Gs) Gg = lookupG Gs Gg := lookupG_push Gs Gg
-          have h1 := eval_in ops ext prog Gg hx n hp e (.map s) (by rw [e1]; exact he)
-          cases hq : evalE ops ext prog n e (pushScope st) with
-          | err o s1 => rw [hq] at h1; exact h1
-          | ok v s1 =>
-            rw [hq] at h1
-            obtain ⟨S1, g1, hok1, hv1, _, _⟩ := h1
-            obtain ⟨a, rfl, ha⟩ := hv1.map_inv
-            obtain ⟨m, hm, _⟩ := hok1.heap.map a s ha
-            simp only [heapGet, hm]
-            have hls := loop_scope_ok Gg hok1 lv .str hlv (.str []) (.str _)
-            have hf := ihF lv .str (.map a m.order) body _ Gs S1 hlv rfl hbody hls
-            exact for_finish Gg ρ _ g1 _ hf
-        | print _ args hargs =>
-          simp only
-          cases n with
-          | zero => exact trivial
-          | succ k =>
-            unfold evalCall
-            have h1 := (sound ops ext prog hx k).2.2.2.2 args st (lookupG Gs Gg) S hargs hok.heap hok.envOk
-            cases hq : evalList ops ext prog k args st with
-            | err o s1 => rw [hq] at h1; exact h1
-            | ok vs s1 =>
-              rw [hq] at h1
-              obtain ⟨S1, g1, hk1, _, l1, gl1⟩ := h1
-              simp only [print_builtin]
-              have hnt : ¬ (String.ofList (lit "print") = "test") := by decide
-              simp only [hnt, if_false]
-              cases joinVals ops s1 vs [' '] with
-              | none => exact trivial
-              | some str =>
-                exact ⟨S1, Gs, g1, (hok.mono g1 hk1 l1 gl1).same Gg rfl rfl rfl, rfl, rfl, fun _ => rfl, trivial⟩
-    · -- a statement list
-      intro b st Gs S hty hok
-      cases hty with
-      | nil => exact ⟨S, Gs, Grows.refl S, hok, rfl, rfl, trivial⟩
-      | cons _ Gs' s rest hs hrest =>
-        unfold execStmts
-        have h1 := ihS s st Gs Gs' S hs hok
-        cases hq : execS ops ext prog n s st with
-        | err o s1 => rw [hq] at h1; exact h1
-        | ok c s1 =>
-          rw [hq] at h1
-          obtain ⟨S1, Gx, g1, hok1, ht, hlen, hn, hc⟩ := h1
-          cases c with
-          | normal =>
-            have := hn rfl; subst this
-            have h2 := ihB rest s1 Gx S1 hrest hok1
-            simp only
-            cases hq2 : execStmts ops ext prog n rest s1 with
-            | err o s2 => rw [hq2] at h2; exact h2
-            | ok c2 s2 =>
-              rw [hq2] at h2
-              obtain ⟨S2, Gy, g2, hok2, ht2, hlen2, hc2⟩ := h2
-              exact ⟨S2, Gy, g1.trans g2, hok2, ht2.trans ht, hlen2.trans hlen, hc2⟩
-          | brk => exact ⟨S1, Gx, g1, hok1, ht, hlen, hc⟩
-          | ret v => exact ⟨S1, Gx, g1, hok1, ht, hlen, hc⟩
-    · -- a block node
-      intro b st0 Gs S hty hok0
-      unfold execBlockNode
-      cases ht : tick st0 with
-      | none => exact trivial
-      | some st =>
-        obtain ⟨th, tl, tg⟩ := tick_same ht
-        exact ihB b st Gs S hty (hok0.same Gg th tl tg)
-    · -- a conditional block
-      intro c body st Gs S hc hb hok
-      unfold execCond
-      simp only
-      have hc' : Typed (lookupG ([] :: Gs) Gg) c .bool := by rw [lookupG_push]; exact hc
-      have h1 := eval_in ops ext prog Gg hx n (hok.push Gg) c .bool hc'
-      cases hq : evalE ops ext prog n c (pushScope st) with
-      | err o s1 => rw [hq] at h1; exact h1
-      | ok v s1 =>
-        rw [hq] at h1
-        obtain ⟨S1, g1, hok1, hv1, _, _⟩ := h1
-        obtain ⟨bv, rfl⟩ := hv1.bool_inv
-        cases bv with
-        | false =>
-          exact ⟨S1, g1, hok1.pop Gg rfl (by simp), trivial⟩
-        | true =>
-          simp only
-          have h2 := ihN body s1 ([] :: Gs) S1 hb hok1
-          have h3 := pop_block Gg ρ g1 _ h2
-          cases hq2 : execBlockNode ops ext prog n body s1 with
-          | err o s2 => rw [hq2] at h3; exact h3
-          | ok c2 s2 => rw [hq2] at h3; exact h3
-    · -- the if chain
-      intro conds els st Gs S hc hb he hok
-      cases conds with
-      | nil =>
-        unfold execIfChain
-        cases els with
-        | none => exact ⟨S, Grows.refl S, hok, trivial⟩
-        | some body =>
-          simp only
-          have h2 := ihN body (pushScope st) ([] :: Gs) S (he body rfl) (hok.push Gg)
-          have h3 := pop_block Gg ρ (Grows.refl S) _ h2
-          cases hq2 : execBlockNode ops ext prog n body (pushScope st) with
-          | err o s2 => rw [hq2] at h3; exact h3
-          | ok c2 s2 => rw [hq2] at h3; exact h3
-      | cons cb rest =>
-        obtain ⟨c, body⟩ := cb
-        unfold execIfChain
-        have h1 := ihC c body st Gs S (hc (c, body) List.mem_cons_self) (hb (c, body) List.mem_cons_self) hok
-        cases hq : execCond ops ext prog n c body st with
-        | err o s1 => rw [hq] at h1; exact h1
-        | ok r s1 =>
-          rw [hq] at h1
-          obtain ⟨comp, taken⟩ := r
-          obtain ⟨S1, g1, hok1, hc1⟩ := h1
-          cases taken with
-          | true => exact ⟨S1, g1, hok1, hc1⟩
-          | false =>
-            simp only
-            have h2 := ihI rest els s1 Gs S1 (fun x hx => hc x (List.mem_cons_of_mem _ hx)) (fun x hx => hb x (List.mem_cons_of_mem _ hx)) he hok1
-            cases hq2 : execIfChain ops ext prog n rest els s1 with
-            | err o s2 => rw [hq2] at h2; exact h2
-            | ok c2 s2 =>
-              rw [hq2] at h2
-              obtain ⟨S2, g2, hok2, hc2⟩ := h2
-              exact ⟨S2, g1.trans g2, hok2, hc2⟩
-    · -- while
-      intro c body st Gs S hc hb hok
-      unfold execWhile
-      have h1 := ihC c body st Gs S hc hb hok
-      cases hq : execCond ops ext prog n c body st with
-      | err o s1 => rw [hq] at h1; exact h1
-      | ok r s1 =>
-        rw [hq] at h1
-        obtain ⟨comp, taken⟩ := r
-        obtain ⟨S1, g1, hok1, hc1⟩ := h1
-        cases taken with
-        | false => exact ⟨S1, g1, hok1, trivial⟩
-        | true =>
-          cases comp with
-          | brk => exact ⟨S1, g1, hok1, trivial⟩
-          | ret v => exact ⟨S1, g1, hok1, hc1⟩
-          | normal =>
-            simp only
-            have h2 := ihW c body s1 Gs S1 hc hb hok1
-            cases hq2 : execWhile ops ext prog n c body s1 with
-            | err o s2 => rw [hq2] at h2; exact h2
-            | ok c2 s2 =>
-              rw [hq2] at h2
-              obtain ⟨S2, g2, hok2, hc2⟩ := h2
-              exact ⟨S2, g1.trans g2, hok2, hc2⟩
-
-    · -- the loop of a for statement
-      intro lv t r body st Gs S hlv hr hb hok
-      unfold execForLoop
-      cases hn : rangerNext ops st r with
-      | none => exact ⟨S, Grows.refl S, hok, trivial⟩
-      | some p =>
-        obtain ⟨v, r'⟩ := p
-        obtain ⟨hv, hr'⟩ := rangerNext_typed ops hok.heap r r' t v hr hn
-        simp only
-        -- rebinding the loop variable
-        have hupd : ∃ st1, updateVar st (match lv with | some n => n | none => underscore) v = some st1 ∧
-            StOk S (loopScope lv t :: Gs) Gg st1 := by
-          cases lv with
-          | none => exact ⟨st, by simp [updateVar], hok⟩
-          | some nm =>
-            have hne := hlv nm rfl
-            have hu := (hok.locals.update nm v t hv).1 (by simp [loopScope, List.findSome?_cons, senvGet, List.lookup])
-            obtain ⟨l', hl', hokl⟩ := hu
-            exact ⟨{ st with locals := l' }, by simp only [updateVar, hne, if_false, hl'], ⟨hokl, hok.global, hok.heap⟩⟩
-        obtain ⟨st1, hu1, hok1⟩ := hupd
-        rw [hu1]
-        simp only
-        have h2 := ihN body (pushScope st1) ([] :: loopScope lv t :: Gs) S hb (hok1.push Gg)
-        have h3 := pop_block Gg ρ (Grows.refl S) _ h2
-        cases hq2 : execBlockNode ops ext prog n body (pushScope st1) with
-        | err o s2 => rw [hq2] at h3; exact h3
-        | ok c2 s2 =>
-          rw [hq2] at h3
-          obtain ⟨S2, g2, hok2, hc2⟩ := h3
-          cases c2 with
-          | brk => exact ⟨S2, g2, hok2, trivial⟩
-          | ret rv => exact ⟨S2, g2, hok2, hc2⟩
-          | normal =>
-            simp only
-            exact (ihF lv t r' body (popScope s2) Gs S2 hlv (hr'.mono g2) hb hok2).grow Gg ρ g2
-
-/-- **type soundness, statements**: a well-typed statement list run for any number of steps in a
-well-typed state ends in a well-typed state (outer scopes as typed, a returned value of the result
-type) or in a documented outcome -/
-theorem stmt_sound (hx : ExtOk ext) (fuel : Nat) (b : List (Stmt F)) (st : St F) (Gs : List SEnv) (S : Store)
-    (hty : BTyped Gg ρ Gs b) (hok : StOk S Gs Gg st) :
-    match execStmts ops ext prog fuel b st with
-    | .ok c st' => ∃ S' Gx, Grows S S' ∧ StOk S' Gx Gg st' ∧ Gx.tail = Gs.tail ∧ Gx.length = Gs.length ∧ ComplOk S' ρ c
-    | .err o _ => Doc o := by
-  have h := (soundS ops ext prog Gg ρ hx fuel).2.1 b st Gs S hty hok
-  cases hq : execStmts ops ext prog fuel b st with
-  | err o s => rw [hq] at h; exact h
-  | ok c s => rw [hq] at h; exact h
-
-/-- well-typed statements never end with an internal error or a Go panic -/
-theorem stmts_never_go_wrong (hx : ExtOk ext) (fuel : Nat) (b : List (Stmt F)) (st st' : St F) (Gs : List SEnv) (S : Store)
-    (hty : BTyped Gg ρ Gs b) (hok : StOk S Gs Gg st) (w : String) :
-    execStmts ops ext prog fuel b st ≠ .err (.internal w) st' ∧ execStmts ops ext prog fuel b st ≠ .err (.goPanic w) st' := by
-  have h := stmt_sound ops ext prog Gg ρ hx fuel b st Gs S hty hok
-  constructor <;> intro hq <;> rw [hq] at h <;> exact h
 
 end EvyV.TS
